@@ -92,6 +92,8 @@ Definition c04_task_b (fwd : bool) (cfg : config) (w : list itask) (o : osch) (t
         (osum rs =? Z.max (odflt (k_est k) (dflt_est cfg) - odflt (k_spent k) 0) 0)
         && nodup_z days
         && forallb (fun d => (day_of s <=? d) && (DAY * d <? e) && (if fwd then day_of (now cfg) <=? d else true)) days
+        (* a user-fixed start is returned unchanged also when nothing is left to reserve *)
+        && (if fwd then match k_start k with Some s0 => s =? s0 | None => true end else true)
         && (match days with
             | [] => true
             | d0 :: ds =>
@@ -155,8 +157,10 @@ Definition c07_task_b (w : list itask) (o : osch) (t : nat) : bool :=
               | s0 :: ss, e0 :: es =>
                   (Nat.eqb (length (s0 :: ss)) (length (c :: cs))) && (Nat.eqb (length (e0 :: es)) (length (c :: cs)))
                   && (s =? zmin_list s0 ss) && (e =? zmax_list e0 es)
-                  && zopt_eqb (o_est o t) (osum_opts (map (o_est o) (c :: cs)))
-                  && zopt_eqb (o_spent o t) (osum_opts (map (o_spent o) (c :: cs)))
+                  && (match osum_opts (map (o_est o) (c :: cs)) with
+                      | Some v => zopt_eqb (o_est o t) (Some v) | None => false end)
+                  && (match osum_opts (map (o_spent o) (c :: cs)) with
+                      | Some v => zopt_eqb (o_spent o t) (Some v) | None => false end)
               | _, _ => false
               end
           end)
@@ -165,7 +169,7 @@ Definition c07_task_b (w : list itask) (o : osch) (t : nat) : bool :=
 
 (* summaries only need start <= end when all leaves below have sane user dates; it follows from the roll-up *)
 Definition c07_order_b (w : list itask) (o : osch) : bool :=
-  negb (forallb (fun t => user_dates_ok (gett w t)) (members w))
+  negb (forallb (fun t => negb (leafb w t) || user_dates_ok (gett w t)) (members w))
   || forallb (fun t => match o_start o t, o_end o t with Some s, Some e => s <=? e | _, _ => false end) (members w).
 
 Definition c07_b (w : list itask) (o : osch) (wstart wend : option Z) : bool :=
@@ -255,6 +259,8 @@ Definition c09_task_b (cfg : config) (w : list itask) (o : osch) (t : nat) : boo
       (e <=? pbound cfg)
       (* every declared or inherited dependency: this task ends before its dependants start *)
       && forallb (fun s2 => e <=? s2) (starts_of o w (dependants w t))
+      (* ... and before every leaf inside a dependant summary starts (the dependency seen from the successor's side) *)
+      && forallb (fun s2 => e <=? s2) (starts_of o w (dependant_leaves w t))
       && (if leafb w t && negb (k_milestone k) then
             let r := k_res k in
             let due := zmin_list (pbound cfg) (starts_of o w (dependants w t)) in
